@@ -22,7 +22,7 @@ def run(ctx):
     ctx.rule = ("(instance, k=2, wrapper, list kind, mutation in {drop first, drop last, duplicate last, append zero, empty}, seeded occurrence) and "
                 "(instance, configuration parameter, +1/-1); trivial = the list is already empty")
     ctx.assumptions += ["template and witness carry the same mutated shape (what a prover controlling the proof template would present)",
-                        "a configuration parameter is changed in every copy the description stores (an unused copy has no effect by construction)"]
+                        "the description stores the FRI configuration twice; Shape.tla lists per parameter which stored copies the verifier reads (both for the number of query rounds, fri_params.config only for cap height and rate bits) and every such copy is also changed alone; config.fri_config.cap_height / rate_bits are never read, changing only them is not a case"]
     thorough = ctx.tier == "thorough"
     r = ctx.tlc("Shape", "Shape.cfg", workers=1)
     cases = json.load(open(os.path.join(r["dir"], "shape_cases.json")))
